@@ -366,7 +366,7 @@ def run_case(acc, c, only_prefix=None):
             if s.outcome != "ok":
                 acc.violation(V("thread_" + s.outcome, f"scenario {c['scenario']}: {s.outcome} (some thread is left blocked)"), case,
                               tuple(x for _, _, x in s.choices), None, "")
-                if s.outcome == "hang":
+                if s.outcome in ("hang", "livelock"):
                     # a thread that neither finishes nor reaches a scheduling point may be SPINNING: it keeps the interpreter busy for the
                     # rest of this process, so the shard ends here (what was found so far is reported, the run is marked non-exhaustive)
                     from ..acc import StopShard
